@@ -21,6 +21,7 @@ ASSUMPTIONS = _loop.ASSUMPTIONS
 
 def gen(ctx):
     TM.emit()
+    _loop.gen(ctx)
 
 
 def same_stats(a, b):
